@@ -11,7 +11,7 @@ ENGINES = [
 
 ENGINES.append(
     {"name": "E3-enumerate", "path": "vf/props/",
-     "serves_properties": ["C02", "C07", "C08", "C09", "C14", "C20"],
+     "serves_properties": ["C02", "C07", "C08", "C09", "C11", "C14", "C16", "C20"],
      "kind_free_text": "small-scope exhaustive enumerators (compositions, "
      "all boolean masks / NaN placements, option products) run against the "
      "real code with a reference oracle per case"})
@@ -296,5 +296,49 @@ CHECKS = {
                 "graphs on more than 4 files, S3 and DCOR formats are not "
                 "enumerated (no network); basin definitions get distinct "
                 "names per edge",
+    },
+    "C11": {
+        "engine": "E3-enumerate",
+        "level": "exploration",
+        "technique": "exhaustive enumeration of metadata keys x value "
+                     "representations x setting routes vs. a reference "
+                     "normaliser per documented type",
+        "text": "All 108 keys of dclab.definitions.config_funcs plus "
+                "online_filter pattern keys, filtering range keys and user "
+                "keys x 2-12 representations admissible for the key's "
+                "documented type (str, bytes, int, float, bool, numpy "
+                "scalars/arrays, lists/tuples, numeric and True/False "
+                "strings) x routes {item assignment, upper-case key, "
+                "section update, Configuration.update, constructor, "
+                "assigning the stored value again, configuration file "
+                "save/load, store_metadata -> HDF5 -> parse_config, "
+                "export, compress}: stored value and type equal the "
+                "reference normal form; unknown keys, empty strings and "
+                "None are rejected with a warning.",
+        "note": "bytes stand for their UTF-8 text; fboolorfloat of the "
+                "integers 0/1 is unconstrained; one open finding (2-D "
+                "arrays in configuration files)",
+    },
+    "C16": {
+        "engine": "E3-enumerate",
+        "level": "exploration",
+        "technique": "exhaustive enumeration of all short arrays over a "
+                     "6-letter value alphabet x requests x modes on the "
+                     "compiled downsampling functions",
+        "text": "Every array of length 1..4 (quick) / 5 (thorough) over "
+                "{0,1,1,2,NaN,inf} (second coordinate from 3 derived "
+                "variants) x every request 0..N+2 x both invalid-handling "
+                "modes x {downsample_rand, downsample_grid}, each call "
+                "repeated (cached and with the cache cleared); 9 large "
+                "generated inputs (uniform, clustered, duplicate-heavy, "
+                "NaN/inf, constant; 10^3 and 2*10^4) x 11 request sizes; "
+                "get_downsampled_scatter(ret_mask) for 3 filters x requests "
+                "x modes x linear/log and the event limit 0..N+2: mask "
+                "selects exactly the returned values, count = requested "
+                "when enough eligible events exist else all eligible, "
+                "invalid handling, reproducibility.",
+        "note": "two open findings in downsampling.pyx (request > N; "
+                "constant data) that cannot be recompiled here; the "
+                "extension is rebuilt from its .c when that changes",
     },
 }
